@@ -329,6 +329,99 @@ func builtinCalls(x *ctx, prop string) {
 			cases = append(cases, c)
 		}
 	}
+	// KW: one generated class whose class methods take 0-1 positional parameters and 2-3 keyword parameters
+	// (Int or String each) declared in every order of the names {zeta, alpha, mid}; every call supplies all
+	// keywords, in every call order, with Integer or String values. The call certainly fails when some
+	// keyword's value class is rejected by its declared type, and certainly fits when every value matches.
+	{
+		kwNames := []string{"zeta", "alpha", "mid"}
+		kwTypes := []string{"Int", "String"}
+		kwVals := map[string]string{"Int": "1", "String": "\"s\""}
+		kwClass := map[string]string{"Int": "Integer", "String": "String"}
+		kw := gen.CfgClass{Frame: "Builtin", Class: "Kwc"}
+		type kwMeth struct {
+			name  string
+			npos  int
+			order []int    // declared order of kwNames indices
+			types []string // declared type per kwNames index
+		}
+		var kms []kwMeth
+		for npos := 0; npos <= 1; npos++ {
+			for K := 2; K <= 3; K++ {
+				for _, order := range gen.Permutations(K) {
+					nt := 1
+					for i := 0; i < K; i++ {
+						nt *= len(kwTypes)
+					}
+					for tv := 0; tv < nt; tv++ {
+						types := make([]string, K)
+						v := tv
+						for i := 0; i < K; i++ {
+							types[i] = kwTypes[v%len(kwTypes)]
+							v /= len(kwTypes)
+						}
+						km := kwMeth{name: fmt.Sprintf("k%d", len(kms)), npos: npos, order: order, types: types}
+						kms = append(kms, km)
+						m := gen.CfgMethod{Name: km.name, Arguments: []gen.CfgArg{}, ReturnType: gen.CfgRet{Type: []string{"Float"}}}
+						if npos == 1 {
+							m.Arguments = append(m.Arguments, gen.CfgArg{Type: []string{"Int"}})
+						}
+						for _, j := range order {
+							m.Arguments = append(m.Arguments, gen.CfgArg{Key: kwNames[j] + ":", Type: []string{types[j]}})
+						}
+						kw.ClassMethods = append(kw.ClassMethods, m)
+					}
+				}
+			}
+		}
+		kwFiles := gen.Merge(core, map[string]string{"kwc.json": kw.JSON()})
+		x.pool.NewCfgDir("kw-all", kwFiles)
+		for _, km := range kms {
+			K := len(km.order)
+			nv := 1
+			for i := 0; i < K; i++ {
+				nv *= len(kwTypes)
+			}
+			var declared []string
+			for _, j := range km.order {
+				declared = append(declared, kwNames[j]+":"+km.types[j])
+			}
+			for vv := 0; vv < nv; vv++ {
+				vals := make([]string, K)
+				v := vv
+				wrong := 0
+				for i := 0; i < K; i++ {
+					vals[i] = kwTypes[v%len(kwTypes)]
+					if vals[i] != km.types[i] {
+						wrong++
+					}
+					v /= len(kwTypes)
+				}
+				for pi, callOrder := range gen.Permutations(K) {
+					if !thorough && K == 3 && (pi+vv)%2 != 0 {
+						continue // quick: half of the call orders for three keywords
+					}
+					var as, classes []string
+					if km.npos == 1 {
+						as = append(as, "7")
+						classes = append(classes, "Integer")
+					}
+					for _, j := range callOrder {
+						as = append(as, kwNames[j]+": "+kwVals[vals[j]])
+						classes = append(classes, kwNames[j]+":"+kwClass[vals[j]])
+					}
+					c := bcCase{cfg: "kw-all", src: bcSetup + "rv = 0\ndbtp Kwc." + km.name + "(" + strings.Join(as, ", ") + ")\n", recv: recvKind{"Kwc", "Kwc", nil},
+						method: fmt.Sprintf("kw[pos=%d;%s]", km.npos, strings.Join(declared, ",")), args: classes, declared: true}
+					if wrong > 0 {
+						c.verdict, c.reason = ref.Fails, "kw-argtype"
+					} else {
+						c.verdict, c.reason, c.wantType = ref.Fits, "", "Float"
+					}
+					cases = append(cases, c)
+				}
+			}
+		}
+	}
 	// select by property
 	var sel []bcCase
 	for _, c := range cases {
